@@ -11,6 +11,7 @@ import (
 	"errors"
 	"flag"
 	"fmt"
+	"sort"
 	"strings"
 	"time"
 
@@ -83,6 +84,7 @@ var keyPool = []string{"a", "b", "k1", "k2", "key", "a1"}
 var cmdPool = []string{"GET", "HGETf", "GETRANGE03", "TTL"}
 
 func genCase(r *gen.Rand, i int) any {
+	r = lruh.Reseed(r)
 	switch r.Intn(40) {
 	case 0:
 		m := lruh.GenMsg(r, "v", r.Intn(300))
@@ -132,7 +134,8 @@ func genCase(r *gen.Rand, i int) any {
 	}
 	nk := r.Range(1, len(keyPool))
 	nc := r.Range(1, len(cmdPool))
-	g := &hgen{r: r, keys: keyPool[:nk], cmds: cmdPool[:nc], now: t0ns + int64(r.Intn(1000))*1000000 + int64(r.Intn(1000000)), max: c.Max}
+	g := &hgen{r: r, keys: keyPool[:nk], cmds: cmdPool[:nc], now: t0ns + int64(r.Intn(1000))*1000000 + int64(r.Intn(1000000)), max: c.Max,
+		cx: map[[2]string]int64{}, done: map[[2]string]int64{}}
 	if r.Chance(1, 8) {
 		c.Kind = "hist-hits" // reach the 1024-hit MoveToBack threshold
 	}
@@ -154,6 +157,8 @@ type hgen struct {
 	max     int
 	out     [][2]string // flights we believe outstanding (heuristic only, for generating matching updates)
 	tag     int
+	cx      map[[2]string]int64 // expiry we expect a flight to carry / an entry to have (heuristic, for boundary lookups)
+	done    map[[2]string]int64
 }
 
 func (g *hgen) tick() int64 {
@@ -190,6 +195,57 @@ func (g *hgen) ttl() int64 {
 
 func (g *hgen) kc() (string, string) { return gen.Pick(g.r, g.keys), gen.Pick(g.r, g.cmds) }
 
+// a lookup exactly at / one unit around the expiry of an entry we believe completed
+func (g *hgen) boundary(now int64) (Op, bool) {
+	r := g.r
+	if len(g.done) == 0 || !r.Chance(1, 9) {
+		return Op{}, false
+	}
+	var kcs [][2]string
+	for kc := range g.done {
+		kcs = append(kcs, kc)
+	}
+	sort.Slice(kcs, func(i, j int) bool { return kcs[i][0]+"\x00"+kcs[i][1] < kcs[j][0]+"\x00"+kcs[j][1] })
+	kc := gen.Pick(r, kcs)
+	x := g.done[kc]
+	if d := x - unixMilli(now); d < -20 || d > 1000 {
+		return Op{}, false
+	}
+	at := x*1000000 + gen.Pick(r, []int64{-1, 0, 1, 500000, 999999, 1000000, -1000000})
+	if at > g.now {
+		g.now = at
+	}
+	delete(g.done, kc)
+	if r.Chance(1, 3) { // the same boundary through both passes of Flights
+		o := Op{Op: "flights", Now: at, Items: []Item{{K: kc[0], C: kc[1], TTL: g.ttl()}}}
+		if r.Chance(1, 2) {
+			k2, c2 := g.kc()
+			o.Items = append(o.Items, Item{K: k2, C: c2, TTL: g.ttl()})
+		}
+		return o, true
+	}
+	return Op{Op: "flight", K: kc[0], C: kc[1], TTL: g.ttl(), Now: at}, true
+}
+
+func (g *hgen) noteFlight(k, c string, ttl, now int64) {
+	kc := [2]string{k, c}
+	if _, ok := g.cx[kc]; !ok {
+		g.cx[kc] = (unixMilli(now+ttl)) & (two56 - 1)
+	}
+}
+
+func (g *hgen) noteUpdate(k, c string, m *lruh.M) {
+	kc := [2]string{k, c}
+	if cx, ok := g.cx[kc]; ok {
+		x := m.Xat
+		if cx < x || x == 0 {
+			x = cx
+		}
+		g.done[kc] = x
+		delete(g.cx, kc)
+	}
+}
+
 func (g *hgen) msg(now int64) *lruh.M {
 	r := g.r
 	min := rueidis.VerifLruEntryMinSize
@@ -224,11 +280,18 @@ func (g *hgen) msg(now int64) *lruh.M {
 func (g *hgen) op(kind string, depth int) Op {
 	r := g.r
 	now := g.tick()
+	if o, ok := g.boundary(now); ok {
+		return o
+	}
 	x := r.Intn(100)
+	if kind == "hist-hits" && r.Chance(1, 5) {
+		x = 99 // many-hit repetitions: the MoveToBack cadence of Flight and of Flights
+	}
 	switch {
 	case x < 38:
 		k, c := g.kc()
 		o := Op{Op: "flight", K: k, C: c, TTL: g.ttl(), Now: now}
+		g.noteFlight(k, c, o.TTL, now)
 		g.out = append(g.out, [2]string{k, c})
 		if depth == 0 && kind == "hist-gap" && r.Chance(1, 2) {
 			for j := r.Range(1, 3); j > 0; j-- {
@@ -245,7 +308,9 @@ func (g *hgen) op(kind string, depth int) Op {
 		} else {
 			k, c = g.kc()
 		}
-		return Op{Op: "update", K: k, C: c, Msg: g.msg(now)}
+		m := g.msg(now)
+		g.noteUpdate(k, c, m)
+		return Op{Op: "update", K: k, C: c, Msg: m}
 	case x < 68:
 		var k, c string
 		if len(g.out) > 0 && r.Chance(3, 4) {
@@ -306,6 +371,14 @@ func (g *hgen) op(kind string, depth int) Op {
 			n := gen.Pick(r, []int{1023, 1024, 1025, 2048, 1000, 24, 512})
 			if kind != "hist-hits" {
 				n = r.Range(2, 40)
+			}
+			if r.Chance(1, 2) {
+				o := Op{Op: "repfs", N: n, Now: now, Items: []Item{{K: k, C: c, TTL: int64(3600) * 1000000000}}}
+				if r.Chance(1, 2) {
+					k2, c2 := g.kc()
+					o.Items = append(o.Items, Item{K: k2, C: c2, TTL: int64(3600) * 1000000000})
+				}
+				return o
 			}
 			return Op{Op: "rep", N: n, K: k, C: c, TTL: int64(3600) * 1000000000, Now: now}
 		}
@@ -614,6 +687,16 @@ func (h *H) exec(o Op, depth int, items *[]string) {
 		h.flight(o, depth, items)
 	case "flights":
 		h.flights(o, depth, items)
+	case "repfs": // the same Flights batch N times; only the last repetition is printed (IRep)
+		single := o
+		single.Op, single.Gap, single.Gap2 = "flights", nil, nil
+		var tmp []string
+		for i := 0; i < o.N-1; i++ {
+			h.flights(single, depth+1, &tmp)
+			tmp = tmp[:0]
+		}
+		h.flights(single, depth+1, &tmp)
+		*items = append(*items, fmt.Sprintf("IRep %d (", o.N)+strings.TrimPrefix(tmp[0], "IOp ("))
 	case "update":
 		_, _, pre := h.dump()
 		sizeBefore, _, _, _, _ := rueidis.VerifLruDump(h.cs)
